@@ -40,6 +40,8 @@ def make_manager_class():
             if event.name == "CONNECTION_FINISHED":
                 rec["kw_facade_is_none"] = kw.get("facade") is None
             mw.events.append(rec)
+            if mw.on_event is not None:
+                mw.on_event(self, event.name)
             d = mw.suspend(event.name)
             if d is not None:
                 rec["suspended"] = d
@@ -115,6 +117,7 @@ class ManWorld:
         self.kw = {"spa_address": address, "spa_identifier": identifier, "spa_name": "Sim Spa"}
         self.phase_log = []
         self.healthy_since = self.w.now
+        self.on_event = None  # harness callback(man, event_name) at delivery, before any suspension
         self._seq = 0
 
     def next_seq(self):
